@@ -176,6 +176,17 @@ enum Stop {
     Diverged(Divergence),
     Early(String),
     Flow(Flow),
+    /// an expression failed with this BASIC error (only `Expr::Quot`, in block headers)
+    ExprFail(i32),
+}
+
+/// What the evaluation of a block header line came to.
+enum HeaderVal {
+    V(i64),
+    /// the line failed and the handler resumed with the statement after it: the body
+    /// of that line (RESUME NEXT / ON ERROR RESUME NEXT)
+    Enter,
+    Flow(Flow),
 }
 
 /// A statement failed with a BASIC error.
@@ -226,6 +237,8 @@ pub struct Model<'a> {
     pending_errors_used: HashMap<(StmtId, u32), usize>,
     /// the simple statement executed last: (id, execution count, is a file statement)
     last_simple: Option<(StmtId, u32, bool)>,
+    /// header line of the block statement whose failure is being handled
+    header_part: Option<usize>,
 }
 
 const STEP_CAP: u64 = 20_000;
@@ -304,6 +317,7 @@ impl<'a> Model<'a> {
             step_cap: STEP_CAP,
             pending_errors_used: HashMap::new(),
             last_simple: None,
+            header_part: None,
         }
     }
 
@@ -346,6 +360,10 @@ impl<'a> Model<'a> {
             }
             Err(Stop::Flow(f)) => {
                 self.report.stopped_early = Some(format!("model left in flow {:?}", f));
+            }
+            Err(Stop::ExprFail(_)) => {
+                self.report.stopped_early =
+                    Some("failing expression in a position the model does not cover".into());
             }
         }
         let store = self.store.clone();
@@ -604,11 +622,52 @@ impl<'a> Model<'a> {
     }
 
     fn span_of(&self, stmt: StmtId) -> Option<(u32, u32, u32)> {
+        if let Some(k) = self.header_part {
+            if let Some(h) = self.em.header_spans.get(&(stmt, k)) {
+                return Some(*h);
+            }
+        }
         self.em
             .spans
             .iter()
             .find(|s| s.stmt == stmt)
             .map(|s| (s.row, s.col_start, s.col_end))
+    }
+
+    /// Evaluates the expression of header line `part` of block statement `s` (0 = its
+    /// first line). A failure is the failure of that line: RESUME evaluates it again,
+    /// RESUME NEXT continues with the statement after the line, i.e. its body.
+    fn eval_header(&mut self, s: &'a Stmt, part: usize, e: &Expr) -> R<HeaderVal> {
+        loop {
+            self.row_override = if part > 0 {
+                self.em.extra_rows.get(&(s.id, part)).copied()
+            } else {
+                None
+            };
+            let r = self.eval_int(e, s.id);
+            self.row_override = None;
+            match r {
+                Ok(v) => return Ok(HeaderVal::V(v)),
+                Err(Stop::ExprFail(code)) => {
+                    self.header_part = Some(part);
+                    self.last_simple = None;
+                    let rec = self.handle_failure(s, Failure { code: Some(code) });
+                    self.header_part = None;
+                    match rec? {
+                        Recovery::Retry => {
+                            self.probe("resume_evaluates_block_header_again");
+                            continue;
+                        }
+                        Recovery::Skip => {
+                            self.probe("resume_next_after_block_header");
+                            return Ok(HeaderVal::Enter);
+                        }
+                        Recovery::Flow(f) => return Ok(HeaderVal::Flow(f)),
+                    }
+                }
+                Err(o) => return Err(o),
+            }
+        }
     }
 
     // ------------------------------------------------------------------
@@ -650,6 +709,11 @@ impl<'a> Model<'a> {
                 },
                 // END or an unhandled error inside a FUNCTION called from an expression
                 Err(Stop::Flow(f)) => f,
+                Err(Stop::ExprFail(_)) => {
+                    return Err(Stop::Early(
+                        "failing expression in a position the model does not cover".into(),
+                    ));
+                }
                 Err(stop) => return Err(stop),
             };
             match flow {
@@ -964,15 +1028,20 @@ impl<'a> Model<'a> {
                 else_b,
             } => {
                 self.report.statements += 1;
-                if self.eval_int(cond, s.id)? != 0 {
-                    return Ok(Ok(self.exec_list(then_b, 0, false)?));
+                match self.eval_header(s, 0, cond)? {
+                    HeaderVal::V(0) => {}
+                    HeaderVal::V(_) | HeaderVal::Enter => {
+                        return Ok(Ok(self.exec_list(then_b, 0, false)?));
+                    }
+                    HeaderVal::Flow(f) => return Ok(Ok(f)),
                 }
                 for (ei, (c, b)) in elseifs.iter().enumerate() {
-                    self.row_override = self.em.extra_rows.get(&(s.id, ei + 1)).copied();
-                    let v = self.eval_int(c, s.id);
-                    self.row_override = None;
-                    if v? != 0 {
-                        return Ok(Ok(self.exec_list(b, 0, false)?));
+                    match self.eval_header(s, ei + 1, c)? {
+                        HeaderVal::V(0) => {}
+                        HeaderVal::V(_) | HeaderVal::Enter => {
+                            return Ok(Ok(self.exec_list(b, 0, false)?));
+                        }
+                        HeaderVal::Flow(f) => return Ok(Ok(f)),
                     }
                 }
                 if let Some(b) = else_b {
@@ -986,7 +1055,11 @@ impl<'a> Model<'a> {
                 else_s,
             } => {
                 self.report.statements += 1;
-                let c = self.eval_int(cond, s.id)? != 0;
+                let c = match self.eval_header(s, 0, cond)? {
+                    HeaderVal::V(v) => v != 0,
+                    HeaderVal::Enter => true,
+                    HeaderVal::Flow(f) => return Ok(Ok(f)),
+                };
                 let inner: Option<&'a Stmt> = if c {
                     Some(then_s)
                 } else {
@@ -1049,7 +1122,12 @@ impl<'a> Model<'a> {
             StmtKind::While { cond, body } => {
                 self.report.statements += 1;
                 let mut guard = 0;
-                while self.eval_int(cond, s.id)? != 0 {
+                loop {
+                    match self.eval_header(s, 0, cond)? {
+                        HeaderVal::V(0) => break,
+                        HeaderVal::V(_) | HeaderVal::Enter => {}
+                        HeaderVal::Flow(f) => return Ok(Ok(f)),
+                    }
                     guard += 1;
                     if guard > 10_000 {
                         return Err(Stop::Early("model loop cap".into()));
@@ -1075,9 +1153,14 @@ impl<'a> Model<'a> {
                         return Err(Stop::Early("model loop cap".into()));
                     }
                     if *top {
-                        let c = self.eval_int(cond, s.id)? != 0;
-                        if c == *until {
-                            break;
+                        match self.eval_header(s, 0, cond)? {
+                            HeaderVal::V(v) => {
+                                if (v != 0) == *until {
+                                    break;
+                                }
+                            }
+                            HeaderVal::Enter => {}
+                            HeaderVal::Flow(f) => return Ok(Ok(f)),
                         }
                     }
                     match self.exec_list(body, 0, false)? {
@@ -1085,12 +1168,15 @@ impl<'a> Model<'a> {
                         other => return Ok(Ok(other)),
                     }
                     if !*top {
-                        self.row_override = self.em.extra_rows.get(&(s.id, 1)).copied();
-                        let v = self.eval_int(cond, s.id);
-                        self.row_override = None;
-                        let c = v? != 0;
-                        if c == *until {
-                            break;
+                        match self.eval_header(s, 1, cond)? {
+                            HeaderVal::V(v) => {
+                                if (v != 0) == *until {
+                                    break;
+                                }
+                            }
+                            // the statement after the LOOP line follows the loop
+                            HeaderVal::Enter => break,
+                            HeaderVal::Flow(f) => return Ok(Ok(f)),
                         }
                     }
                 }
@@ -1106,18 +1192,33 @@ impl<'a> Model<'a> {
                 for (ci, (specs, b)) in cases.iter().enumerate() {
                     let mut hit = false;
                     for sp in specs {
-                        self.row_override = self.em.extra_rows.get(&(s.id, ci + 1)).copied();
+                        // a failing CASE line: RESUME evaluates the expression again,
+                        // RESUME NEXT goes on with the statements of that CASE
+                        macro_rules! hv {
+                            ($e:expr) => {
+                                match self.eval_header(s, ci + 1, $e)? {
+                                    HeaderVal::V(x) => Some(x),
+                                    HeaderVal::Enter => None,
+                                    HeaderVal::Flow(f) => return Ok(Ok(f)),
+                                }
+                            };
+                        }
                         let m = match sp {
-                            CaseSpec::Simple(e) => self.eval_int(e, s.id)? == v,
-                            CaseSpec::Is(op, e) => {
-                                let x = self.eval_int(e, s.id)?;
-                                op.eval(v, x)
-                            }
-                            CaseSpec::Range(a, b2) => {
-                                let x = self.eval_int(a, s.id)?;
-                                let y = self.eval_int(b2, s.id)?;
-                                x <= v && v <= y
-                            }
+                            CaseSpec::Simple(e) => match hv!(e) {
+                                Some(x) => x == v,
+                                None => true,
+                            },
+                            CaseSpec::Is(op, e) => match hv!(e) {
+                                Some(x) => op.eval(v, x),
+                                None => true,
+                            },
+                            CaseSpec::Range(a, b2) => match hv!(a) {
+                                None => true,
+                                Some(x) => match hv!(b2) {
+                                    None => true,
+                                    Some(y) => x <= v && v <= y,
+                                },
+                            },
                         };
                         self.row_override = None;
                         if m {
@@ -1605,6 +1706,14 @@ impl<'a> Model<'a> {
             }
             Expr::Paren(x) => self.eval(x, site)?,
             Expr::LenOf(t) => Val::I(t.len() as i64),
+            Expr::Quot(x) => {
+                let v = self.eval_int(x, site)?;
+                let d = self.get_int("DZ%");
+                if d == 0 {
+                    return Err(Stop::ExprFail(11));
+                }
+                Val::I(v / d)
+            }
             Expr::Err => Val::I(self.err),
             Expr::Eof(h) => {
                 let hd = match self.handles.get(h) {
